@@ -35,6 +35,35 @@ static void verif_step(cfg_t *cfg, int level, int force_state, struct pstate *ps
 	} while (0)
 
 #include "verif.h"
+/* free() as seen by confuse.c: counts how often each watched object is released (C07: exactly once) */
+#define NWATCH 8
+static void *watch_ptr[NWATCH];
+static int watch_freed[NWATCH];
+static int n_watch;
+static void v_free(void *p)
+{
+	int i;
+
+	for (i = 0; i < NWATCH; i++)
+		if (i < n_watch && p != NULL && p == watch_ptr[i])
+			watch_freed[i]++;
+	free(p);
+}
+static int watch(void *p)
+{
+	if (n_watch < NWATCH)
+		watch_ptr[n_watch] = p;
+	return n_watch++;
+}
+static int times_freed(void *p)
+{
+	int i;
+
+	for (i = 0; i < NWATCH; i++)
+		if (i < n_watch && watch_ptr[i] == p)
+			return watch_freed[i];
+	return -1;
+}
 #ifdef __CPROVER__
 /* realloc() is only used by confuse.c to grow the value vector (an array of pointers).  CBMC's
  * built-in model copies byte-wise, which turns every stored pointer into a byte-extract expression
@@ -83,7 +112,9 @@ static char *v_strdup8(const char *s)
 #define strdup v_strdup8
 #endif
 #endif
+#define free v_free
 #include "confuse.c"
+#undef free
 #define VM_NO_STRNDUP
 #define VM_STRTOD_CONTRACT
 #include "libc_models.h"
@@ -285,6 +316,9 @@ static char pre_pending_txt[NTOK + 1];
 static int pre_has_title;
 static char pre_opttitle[NTOK + 1];
 static int pre_nargs;
+static char *held_title;
+static cfg_value_t *held_arg_cell[3];
+static char *held_arg_str[3];
 static cfg_opt_t *pre_opt;
 
 static char *heap_str(const char *s)
@@ -481,6 +515,7 @@ static void verif_step(cfg_t *cfg, int level, int force_state, struct pstate *ps
 			if (vin_has_pending) {
 				V_FILL_STR(pre_pending_txt, 1);
 				*ps->comment = heap_str(pre_pending_txt);
+				watch(*ps->comment);
 			}
 		}
 #endif
@@ -490,6 +525,8 @@ static void verif_step(cfg_t *cfg, int level, int force_state, struct pstate *ps
 		pre_opttitle[0] = NEWTITLE;
 		pre_opttitle[1] = 0;
 		*ps->opttitle = heap_str(pre_opttitle);
+		held_title = *ps->opttitle;
+		watch(held_title);
 		pre_has_title = 1;
 #endif
 #endif
@@ -500,6 +537,10 @@ static void verif_step(cfg_t *cfg, int level, int force_state, struct pstate *ps
 
 			V_ASSUME(v != NULL);
 			v->string = heap_str(tmp);
+			held_arg_cell[i] = v;
+			held_arg_str[i] = v->string;
+			watch(v);
+			watch(v->string);
 		}
 #endif
 		pre_state = *ps->state;
